@@ -321,7 +321,11 @@ func rulesFlags(c *Ctx, r *Report) {
 }
 
 func bitGetter(g *ssa.Function, bit uint, width int) (bool, string) {
-	e := &bitEval{vals: map[ssa.Value]bitvec{g.Params[0]: inVec()}, width: width}
+	return bitGetterWith(g, map[ssa.Value]bitvec{g.Params[0]: inVec()}, bit, width, 0)
+}
+
+func bitGetterWith(g *ssa.Function, vals map[ssa.Value]bitvec, bit uint, width int, depth int) (bool, string) {
+	e := &bitEval{vals: vals, width: width}
 	// single return of a boolean
 	var rets []*ssa.Return
 	instrs(g, func(in ssa.Instruction) {
@@ -331,6 +335,20 @@ func bitGetter(g *ssa.Function, bit uint, width int) (bool, string) {
 	})
 	if len(rets) != 1 || len(rets[0].Results) != 1 || len(g.Blocks) != 1 {
 		return false, "undecided"
+	}
+	// the test done by a helper of the package: return f.has(FlagX)
+	if cl, isCall := rets[0].Results[0].(*ssa.Call); isCall && depth < 2 {
+		if h := cl.Call.StaticCallee(); h != nil && h.Blocks != nil && h.Pkg == g.Pkg && h != g && len(h.Params) == len(cl.Call.Args) {
+			hv := map[ssa.Value]bitvec{}
+			for i, a := range cl.Call.Args {
+				v, ok := e.vec(a)
+				if !ok {
+					return false, "undecided"
+				}
+				hv[h.Params[i]] = v
+			}
+			return bitGetterWith(h, hv, bit, width, depth+1)
+		}
 	}
 	lits, ct, ok := e.boolOf(rets[0].Results[0])
 	if !ok {
